@@ -332,7 +332,8 @@ def escape(pattern: AnyStr, unix: bool | None = None, pathname: bool = True) -> 
     length = 0
     if pathname and ((unix is None and util.platform() == "windows") or unix is False):
         m = drive_pat.match(pattern)
-        if m:
+        # Only a drive that the pattern parser will take for one as well can be left alone
+        if m and _get_win_drive(m.group(0).decode('latin-1') if isinstance(pattern, bytes) else m.group(0))[1]:
             # Replace splitting magic chars
             drive = m.group(0)
             length = len(drive)
@@ -447,7 +448,8 @@ def is_magic(pattern: AnyStr, flags: int = 0) -> bool:
     length = 0
     if is_path and ((unix is None and util.platform() == "windows") or unix is False):
         m = drive_pat.match(pattern)
-        if m:
+        # Only a drive that the pattern parser will take for one as well holds no ordinary magic characters
+        if m and _get_win_drive(m.group(0).decode('latin-1') if isinstance(pattern, bytes) else m.group(0))[1]:
             drive = m.group(0)
             length = len(drive)
             for c in magic_drive:
